@@ -19,7 +19,8 @@ from typing import List
 import aionostr.event as AE
 from nostr_relay import validators
 from nostr_relay.errors import StorageError
-from vk.ob import obligation, pick
+from envmodel.crypto_oracle import CryptoOracle, Blob
+from vk.ob import obligation, pick, fresh_module_state
 
 H1 = "ab" * 32          # the oracle's hash of the event serialization
 H2 = "cd" * 32          # the oracle's hash of anything else (delegation strings, ...)
@@ -28,51 +29,23 @@ PK1, PK2 = "11" * 32, "22" * 32
 SIG = "33" * 64
 
 
-class Oracle:
-    """stands in for coincurve.PublicKeyXOnly and hashlib.sha256 inside aionostr.event"""
+class Oracle(CryptoOracle):
+    """key validity and the answers of successive verify() calls are chosen by the solver; the hash of an
+    event serialization (a Blob) is H1, the hash of anything else (delegation strings) is H2"""
 
     def __init__(self, key_ok, answers):
+        super().__init__()
         self.key_ok = key_ok
         self.answers = list(answers)
-        self.verify_calls = []
-        self.hashed = []
-        self.dumped = []
 
-    def PublicKey(self, raw):
-        oracle = self
-        if not oracle.key_ok:
-            raise ValueError("invalid public key")
+    def key_valid(self, raw):
+        return self.key_ok
 
-        class _K:
-            def verify(self, sig, msg):
-                ans = oracle.answers.pop(0) if oracle.answers else False
-                oracle.verify_calls.append((raw, sig, msg, ans))
-                return ans
+    def answer(self, raw, sig, msg):
+        return self.answers.pop(0) if self.answers else False
 
-        return _K()
-
-    def sha256(self, data):
-        oracle = self
-        oracle.hashed.append(data)
-        hx = H1 if (isinstance(data, bytes) and data.startswith(b"SER:")) else H2
-
-        class _H:
-            def hexdigest(self):
-                return hx
-
-            def digest(self):
-                return bytes.fromhex(hx)
-
-        return _H()
-
-    def dumps(self, data):
-        self.dumped.append(data)
-        return "SER:%d" % len(self.dumped)
-
-    def install(self):
-        AE.PublicKey = self.PublicKey
-        AE.sha256 = self.sha256
-        AE.dumps = self.dumps
+    def digest_of(self, blob):
+        return H1 if isinstance(blob, Blob) else H2
 
 
 def _same_fields(data, ev):
@@ -92,6 +65,7 @@ def ob_id_binding(idsel: int, key_ok: bool, v0: bool, v1: bool, v2: bool, ndeleg
     post: _.startswith("ok")
     """
     logging.disable(logging.CRITICAL)
+    fresh_module_state(validators)
     orc = Oracle(key_ok, [v0, v1, v2])
     orc.install()
     tags = [["e", "x"]] + [["delegation", PK2, "kind=1", SIG] for _ in range(ndeleg)]
@@ -134,6 +108,7 @@ def ob_wellformed(tsel: int, tagsel: int, pksel: int, sigsel: int) -> str:
     post: _.startswith("ok")
     """
     logging.disable(logging.CRITICAL)
+    fresh_module_state(validators)
     orc = Oracle(True, [True] * 8)
     orc.install()
     sig = pick(_HEX, sigsel) * 2
@@ -158,3 +133,45 @@ def ob_wellformed(tsel: int, tagsel: int, pksel: int, sigsel: int) -> str:
         if not (isinstance(val, str) and len(val) == n and all(c in "0123456789abcdef" for c in val)):
             return "accepted %s=%r" % (name, val)
     return "ok"
+
+
+class SigOracle(CryptoOracle):
+    """only (PK1, SIG, H1) is a valid signature; the hash of the event serialization is H1"""
+
+    def answer(self, raw, sig, msg):
+        return raw == bytes.fromhex(PK1) and sig == bytes.fromhex(SIG) and msg == bytes.fromhex(H1)
+
+    def digest_of(self, blob):
+        return H1 if isinstance(blob, Blob) else H2
+
+
+@obligation(funcs=["validators.is_signed"], timeout=(120, 600),
+            bounds="two submissions through the same process: the genuine event first (accepted), then an event with the same "
+                   "id and fields whose sig / delegation tag was replaced (symbolic choices); the oracle accepts only the "
+                   "genuine signature")
+def ob_second_submission(bad_sig: bool, add_deleg: bool, other_pubkey: bool) -> str:
+    """
+    post: _.startswith("ok")
+    """
+    logging.disable(logging.CRITICAL)
+    fresh_module_state(validators)
+    SigOracle().install()
+    ev = AE.Event(pubkey=PK1, content="hi", created_at=1700000000, kind=1, tags=[["e", "x"]], id=H1, sig=SIG)
+    try:
+        validators.is_signed(ev, None)
+    except Exception as e:
+        return "genuine event refused: %r" % (e,)
+    tags = [["e", "x"]] + ([["delegation", PK2, "kind=1", "44" * 64]] if add_deleg else [])
+    ev2 = AE.Event(pubkey=PK2 if other_pubkey else PK1, content="hi", created_at=1700000000, kind=1, tags=tags, id=H1,
+                   sig=("55" * 64) if bad_sig else SIG)
+    forged = bad_sig or add_deleg or other_pubkey
+    try:
+        validators.is_signed(ev2, None)
+    except StorageError:
+        return "ok" if forged else "verbatim resubmission refused by is_signed"
+    except Exception:
+        return "ok" if forged else "verbatim resubmission crashed is_signed"
+    if forged:
+        return "after the genuine event was seen, a copy with bad_sig=%r forged_delegation=%r other_pubkey=%r passed is_signed" % (
+            bad_sig, add_deleg, other_pubkey)
+    return "ok-verbatim"
